@@ -15,4 +15,5 @@ def units(tier):
         u.append(dict(kind="xlift", mechanism="xlift bounded (C), exact", name=f"xlift:simulator[{l}]", module="vf.tasks.t_fock", func="unit", args=dict(which="simulator", label=l)))
     u.append(dict(kind="func", mechanism="bounded runtime contract (C), native machine integers", name="bounded:large-occupations", module="vf.tasks.t_fock", func="unit_bigint", args={}))
     u.append(dict(kind="func", mechanism="bounded runtime contract (C)", name="bounded:simulator-histories", module="vf.tasks.t_history", func="unit", args=dict(kind="simulator")))
+    u.append(dict(kind="func", mechanism="bounded runtime contract (C), native", name="bounded:typed-states", module="vf.tasks.t_fock", func="unit_typed_states", args={}))
     return u
